@@ -59,7 +59,7 @@ CHECKS = {
     'C15': ('property-based testing (Hypothesis): differential against an explicit loop over multi-indices and snapshots',
             'Generated data, mixed basis-function lists, add_one, single_core, second data set (Gram) and HOCUR settings; the '
             'transformed data tensor is compared with the explicit product formula. Exploration, not proof.',
-            'HOCUR ranks >= m; ill-conditioned cases (singular-value ratios of an unfolding in (1e-13, 1e-4)) are discarded.', '3/C15'),
+            'HOCUR ranks >= m; ill-conditioned cases (singular-value ratios of an unfolding in (1e-13, 1e-4)) are discarded; failures of HOCUR on data with an exact zero are the known finding F28 (KNOWN-FINDING line, exit 0).', '3/C15'),
     'C06': ('property-based testing (Hypothesis): model-based operation histories with shadow copies + exhaustive producer x layout x follow-up cross product',
             'Generated call histories (10..40 steps over a pool of live tensor trains, results fed back as operands, in-place and '
             'overwrite variants interleaved, rank-1 bonds / F-ordered / transposed-view cores) with a shadow of every live object '
@@ -175,7 +175,10 @@ def main():
         'notes': 'All checks: exit 0 = held on everything explored, exit 1 + VIOLATION line = violation with replay file, exit 2 = '
                  'harness error. VERIF_SEED selects the Hypothesis seeds; VERIF_REPO (default /repo) selects the tree. '
                  'Thorough tier = 16 Hypothesis shards per sub-check followed by 4 atheris campaigns per sub-check (VERIF_FUZZ=0 switches '
-                 'the second stage off; it is skipped with a note in the evidence when atheris cannot be imported).',
+                 'the second stage off; it is skipped with a note in the evidence when atheris cannot be imported). '
+                 'Known findings: known_findings.json (F01-F27 fixed by fix: commits in /repo, their replays under replays/<ID>/fixed-*.json '
+                 'are re-run on every check; F28, hocur on transformed data tensors with exact zeros, is known and not repaired: C15 '
+                 'prints a KNOWN-FINDING line for it and exits 0).',
     }
     with open(os.path.join(HERE, 'MANIFEST.json'), 'w') as f:
         json.dump(man, f, indent=1)
